@@ -5,7 +5,8 @@ ioflo/base/acting.py `Nact.__call__` (negation) and the need loop of `Transiter.
 clocks `elapsed` / `recurred`.
 
 Python values (DESIGN §5.1): `None`, `bool`, numbers (int and float are one constructor — Python
-compares and subtracts them by value; exact rationals, DESIGN §5.2), `str` as its list of code
+compares and subtracts them by value).  Generic over the number type τ: exact rationals for the
+theorems (DESIGN §5.2), Lean Float = IEEE binary64 = CPython float in the driver's second instantiation, `str` as its list of code
 points (Python orders strings lexicographically by code point).  A `TypeError` that Python raises
 is `none` of an `Option` inside `Check` (where the code catches it) and `Except.error` where it
 propagates.
@@ -14,10 +15,10 @@ Core Lean only.
 -/
 namespace Ioflo.Need
 
-inductive PyVal
+inductive PyVal (τ : Type)
   | none
   | bool (b : Bool)
-  | num (q : Rat)
+  | num (q : τ)
   | str (s : List Nat)
   deriving DecidableEq, Repr
 
@@ -31,14 +32,18 @@ inductive Cmp
   | other          -- any other string
   deriving DecidableEq, Repr
 
+section generic
+variable {τ : Type} [Add τ] [Sub τ] [Neg τ] [Mul τ] [LT τ] [LE τ] [DecidableLT τ] [DecidableLE τ] [BEq τ]
+  [OfNat τ 0] [OfNat τ 1]
+
 /-- value of a Python number (`bool` is a subclass of `int`); `none` for `None` and `str` -/
-def PyVal.toNum? : PyVal → Option Rat
+def PyVal.toNum? : PyVal τ → Option τ
   | .bool b => some (if b then 1 else 0)
   | .num q => some q
   | _ => Option.none
 
-/-- `abs(x)` on a rational -/
-def qabs (x : Rat) : Rat := if x < 0 then -x else x
+/-- `abs(x)` -/
+def qabs (x : τ) : τ := if x < 0 then -x else x
 
 /-- lexicographic `<` on code point lists (Python `str.__lt__`) -/
 def lexLt : List Nat → List Nat → Bool
@@ -48,16 +53,16 @@ def lexLt : List Nat → List Nat → Bool
   | a :: as, b :: bs => if a < b then true else if b < a then false else lexLt as bs
 
 /-- Python `a == b` on these values: never raises -/
-def pyEq : PyVal → PyVal → Bool
+def pyEq : PyVal τ → PyVal τ → Bool
   | .none, .none => true
   | .str a, .str b => decide (a = b)
   | a, b =>
     match a.toNum?, b.toNum? with
-    | some x, some y => decide (x = y)
+    | some x, some y => x == y
     | _, _ => false
 
 /-- Python `a < b`: numbers with numbers, strings with strings, else `TypeError` -/
-def pyLt? : PyVal → PyVal → Option Bool
+def pyLt? : PyVal τ → PyVal τ → Option Bool
   | .str a, .str b => some (lexLt a b)
   | a, b =>
     match a.toNum?, b.toNum? with
@@ -65,7 +70,7 @@ def pyLt? : PyVal → PyVal → Option Bool
     | _, _ => Option.none
 
 /-- Python `a <= b` -/
-def pyLe? : PyVal → PyVal → Option Bool
+def pyLe? : PyVal τ → PyVal τ → Option Bool
   | .str a, .str b => some (!lexLt b a)
   | a, b =>
     match a.toNum?, b.toNum? with
@@ -76,7 +81,7 @@ def pyLe? : PyVal → PyVal → Option Bool
 `(goal - abs(tolerance)) <= state <= (goal + abs(tolerance))`; `none` = it raised `TypeError`
 (`abs` of a non-number, `-` on a non-number goal, `<=` between a number and a non-number).
 The chained comparison evaluates `goal + abs(tolerance)` only if the first half is true. -/
-def window? (state goal tol : PyVal) : Option Bool :=
+def window? (state goal tol : PyVal τ) : Option Bool :=
   match tol.toNum? with
   | Option.none => Option.none                -- abs(tolerance)
   | some t =>
@@ -89,7 +94,7 @@ def window? (state goal tol : PyVal) : Option Bool :=
         if g - qabs t ≤ s then some (decide (s ≤ g + qabs t)) else some false
 
 /-- `Need.Check(state, comparison, goal, tolerance)` -/
-def check (state : PyVal) (c : Cmp) (goal tol : PyVal) : Except Err Bool :=
+def check (state : PyVal τ) (c : Cmp) (goal tol : PyVal τ) : Except Err Bool :=
   match c with
   | .eq =>
     match window? state goal tol with
@@ -118,57 +123,57 @@ def check (state : PyVal) (c : Cmp) (goal tol : PyVal) : Except Err Bool :=
   | .other => .ok false
 
 /-- `if state[stateField]:` -/
-def truthy : PyVal → Bool
+def truthy : PyVal τ → Bool
   | .none => false
   | .bool b => b
-  | .num q => q != 0
+  | .num q => !(q == 0)
   | .str s => !s.isEmpty
 
 /-! ### needs over a store -/
 
 /-- the fields the needs read: key ↦ value.  Keys 0 and 1 are the framer clocks `elapsed`,
 `recurred`. -/
-abbrev Env := List (Nat × PyVal)
+abbrev Env (τ : Type) := List (Nat × PyVal τ)
 
 /-- `share[field]`; `_resolve` creates a field that does not exist with `0.0` -/
-def Env.get (e : Env) (k : Nat) : PyVal :=
+def Env.get (e : Env τ) (k : Nat) : PyVal τ :=
   match e.lookup k with
   | some v => v
   | Option.none => .num 0
 
 /-- a goal: a literal of the script (NeedDirect) or another share's field (NeedIndirect) -/
-inductive Goal
-  | lit (v : PyVal)
+inductive Goal (τ : Type)
+  | lit (v : PyVal τ)
   | ref (k : Nat)
   deriving DecidableEq, Repr
 
-inductive Need
+inductive Need (τ : Type)
   | boolean (state : Nat)                                   -- if state
-  | compare (state : Nat) (c : Cmp) (goal : Goal) (tol : PyVal) -- if state <op> goal [+- tol]
+  | compare (state : Nat) (c : Cmp) (goal : Goal τ) (tol : PyVal τ) -- if state <op> goal [+- tol]
   deriving DecidableEq, Repr
 
-def Goal.val (e : Env) : Goal → PyVal
+def Goal.val (e : Env τ) : Goal τ → PyVal τ
   | .lit v => v
   | .ref k => e.get k
 
 /-- `actor.action(**parms)` -/
-def Need.eval (e : Env) : Need → Except Err Bool
+def Need.eval (e : Env τ) : Need τ → Except Err Bool
   | .boolean k => .ok (truthy (e.get k))
   | .compare k c g tol => check (e.get k) c (g.val e) tol
 
 /-- `[not] need`: an `Act` or a `Nact` (`not actor(**parms)`) -/
-structure Clause where
+structure Clause (τ : Type) where
   negate : Bool
-  need : Need
+  need : Need τ
   deriving DecidableEq, Repr
 
-def Clause.eval (e : Env) (c : Clause) : Except Err Bool :=
+def Clause.eval (e : Env τ) (c : Clause τ) : Except Err Bool :=
   match c.need.eval e with
   | .ok r => .ok (if c.negate then !r else r)
   | .error x => .error x
 
 /-- `for act in needs: if not act(): return None` … the transition is taken iff this is `true` -/
-def evalAll (e : Env) : List Clause → Except Err Bool
+def evalAll (e : Env τ) : List (Clause τ) → Except Err Bool
   | [] => .ok true
   | c :: rest =>
     match c.eval e with
@@ -186,11 +191,15 @@ inductive Outcome
   deriving DecidableEq, Repr
 
 /-- the clocks at the `j`-th evaluation after entering the frame -/
-def envAt (period : Rat) (e : Env) (j : Nat) : Env :=
-  (0, .num (period * j)) :: (1, .num j) :: e
+def natTo : Nat → τ
+  | 0 => 0
+  | n + 1 => natTo n + 1
+
+def envAt (period : τ) (e : Env τ) (j : Nat) : Env τ :=
+  (0, .num (period * natTo j)) :: (1, .num (natTo j)) :: e
 
 /-- evaluations `j, j+1, …` while fuel lasts -/
-def runFrom (period : Rat) (e : Env) (cs : List Clause) : Nat → Nat → Outcome
+def runFrom (period : τ) (e : Env τ) (cs : List (Clause τ)) : Nat → Nat → Outcome
   | 0, _ => .miss
   | fuel + 1, j =>
     match evalAll (envAt period e j) cs with
@@ -199,7 +208,28 @@ def runFrom (period : Rat) (e : Env) (cs : List Clause) : Nat → Nat → Outcom
     | .ok false => runFrom period e cs fuel (j + 1)
 
 /-- evaluations 1 … limit -/
-def runFrame (period : Rat) (limit : Nat) (e : Env) (cs : List Clause) : Outcome :=
+def runFrame (period : τ) (limit : Nat) (e : Env τ) (cs : List (Clause τ)) : Outcome :=
   runFrom period e cs limit 1
+
+/-! ### an entry guard (`let [me] if …`) in front of a frame with one conditional transition -/
+
+inductive GOutcome
+  | blocked               -- the guard is false: the frame is never entered
+  | hit | miss            -- entered; the transition's needs were true / false at its first evaluation
+  | raised (e : Err)
+  deriving DecidableEq, Repr
+
+/-- `guard` = needs of `let me if …` (beacts, evaluated like a need list), `cs` = needs of the `go` -/
+def runGuarded (e : Env τ) (guard cs : List (Clause τ)) : GOutcome :=
+  match evalAll e guard with
+  | .error x => .raised x
+  | .ok false => .blocked
+  | .ok true =>
+    match evalAll e cs with
+    | .error x => .raised x
+    | .ok true => .hit
+    | .ok false => .miss
+
+end generic
 
 end Ioflo.Need
